@@ -122,7 +122,7 @@ class TLCResult:
 
 def run_tlc(spec, cfg, env=None, workers=None, timeout=3600, extra=(),
             simulate=None, depth=None, tlc_seed=None, coverage=False,
-            check=True, deadlock=False, heap=None):
+            check=True, deadlock=False, heap="6g"):
     '''Run TLC on spec (path relative to spec/ or absolute) with config cfg.'''
     spec_path = spec if os.path.isabs(spec) else os.path.join(SPEC, spec)
     cfg_path = cfg if os.path.isabs(cfg) else os.path.join(SPEC, cfg)
